@@ -71,7 +71,7 @@ def _fixed_len_name(name: str, total: int = 80) -> str:
 
 
 class World:
-    def __init__(self, backend: str, tag: str, orphan_tip: bool = False):
+    def __init__(self, backend: str, tag: str, orphan_tip: bool = False, extra_appends: int = 0):
         from datashard import create_table
         from datashard.data_structures import ManifestContent
 
@@ -102,6 +102,8 @@ class World:
         first = t._get_all_data_files()[0].file_path
         with t.new_transaction() as tx:
             tx.delete_files([first])
+        for k in range(extra_appends):  # a long history: one more manifest per append (size thresholds in the collector)
+            t.append_records([row(100 + k)])
         st = t.storage
         if orphan_tip:
             # leftover of a committer that died between writing its metadata file and flipping the pointer:
@@ -136,8 +138,8 @@ class World:
         # ---- ground truth (independent reader) ------------------------------------
         self.before: Dict[str, bytes] = {rel: self.view.get(rel) for rel in sorted(self.view.list())}
         ts = reader.TableState(self.view, rows=False)
-        if ts.errors or len(ts.snaps) != 3:
-            raise HarnessError(f"template unreadable / not 3 snapshots: {ts.errors}")
+        if ts.errors or len(ts.snaps) != 3 + extra_appends:
+            raise HarnessError(f"template unreadable / not {3 + extra_appends} snapshots: {ts.errors}")
         self.ts = ts
         self.R: Set[str] = set(ts.reachable())
         self.M: Set[str] = {r for r in self.before if path_class(r) in ("metadata", "pointer")}
@@ -455,10 +457,15 @@ class Runner:
         rep.add("storage_calls_numbered", len(calls))
         rep.sample({"backend": w.backend, "fault_free_calls": [c.label() for c in calls][:60], "deleted": sorted(j["D"]),
                     "protected": sorted(w.P), "reachable": len(w.R)})
-        kinds = [("fault_once", os_error(), False), ("fault_persistent", os_error(), True)]
+        import errno
+
+        # "not found" answers for something that exists (a stale directory entry, an eventually consistent store)
+        kinds = [("fault_once", os_error(), False), ("fault_persistent", os_error(), True),
+                 ("fault_not_found_once", os_error(errno.ENOENT), False)]
         if w.backend == "s3":
             kinds = [("fault_once", s3_transient(), False), ("fault_persistent", s3_transient("SlowDown", 503), True),
-                     ("fault_permanent", s3_permanent(), True)]
+                     ("fault_permanent", s3_permanent(), True),
+                     ("fault_not_found_persistent", s3_transient("NoSuchKey", 404), True)]
         for c in calls:
             inp = input_class(w, c)
             for kname, exc, persistent in kinds:
@@ -540,13 +547,15 @@ class Runner:
 def worker(payload: Tuple[Any, ...]) -> Dict[str, Any]:
     part, tier, seed, backend = payload
     rep = Report(PROP, tier, seed, LEVEL)
-    w = World(backend, f"{part}-{os.getpid()}", orphan_tip=(part == "c"))
+    w = World(backend, f"{part}-{os.getpid()}", orphan_tip=(part == "c"), extra_appends=(18 if part == "d" else 0))
     r = Runner(rep, w)
     try:
         if part == "a":
             r.part_a()
         elif part == "c":
             r.part_a(label="c")  # same fault enumeration, on a table that carries an uncommitted higher metadata version
+        elif part == "d":
+            r.part_a(label="d")  # same fault enumeration, on a table with a long history (21 snapshots, 21 manifests)
         else:
             r.part_b()
     finally:
@@ -597,7 +606,7 @@ def collapse(fails: List[Tuple[List[Any], Dict[str, Any]]], causes: List[Tuple[L
 def run(tier: str, seed: int) -> Report:
     rep = Report(PROP, tier, seed, LEVEL)
     backends = ["local"] if tier == "quick" else ["local", "s3"]
-    pls = [(part, tier, seed, b) for b in backends for part in ("a", "b", "c")]
+    pls = [(part, tier, seed, b) for b in backends for part in ("a", "b", "c", "d")]
     if tier == "quick":
         pls += [("a", tier, seed, "s3"), ("c", tier, seed, "s3")]  # request-level faults on the object store are cheap
     if seed:
